@@ -14,10 +14,17 @@ def gen_project(rng, seed, nfiles, dup_fragments=True):
     """files with deliberately repeated identifiers and identical fragments in different files"""
     files = []
     shared = 'class Shared { int f(int a, int b) { if (a > b) { return a + b; } foo(1 + 2); return new Foo(a); } /* same comment */ }\n'
+    # LONG identical fragments (a licence header, a generated class with a long Javadoc, a long body, a long string and
+    # a long line comment): whatever derives an identity from a bounded prefix of the text confuses them across files
+    header = '/*\n' + ''.join(' * Licensed to the Example Foundation under one or more contributor license agreements (%d).\n' % k for k in range(30)) + ' */\n'
+    longgen = ('/** ' + 'generated documentation words ' * 60 + '*/\nclass Generated {\n  // ' + 'do not edit ' * 120 + '\n  String banner = "' + 'x-' * 700 + '";\n'
+               '  void generated(int a) { ' + 'emit(a, "' + 'y' * 1100 + '"); ' + 'step(a); ' * 160 + '}\n}\n')
     for i in range(nfiles):
         text, _, _ = javagen.gen_unit(seed + 900, i, size=0.6)
         if dup_fragments and i % 2 == 0:
             text += shared
+        if dup_fragments and seed % 2 == 1:
+            text = header + text + (longgen if i % 3 != 2 else '')
         sub = ['', 'a/', 'a/b/', 'c d/'][i % 4]
         files.append(('%sF%d.java' % (sub, i), text.encode()))
     if dup_fragments and nfiles >= 2:
